@@ -305,7 +305,8 @@ fn zero_class(c: &ControlPoints, t: f64) -> &'static str {
 }
 
 const TIMES: [f64; 10] = [-1.0, 0.0, 1.0, 2.0, -0.0, 0.5, 1.5, 1e9, -2147483647.0, 3.0];
-const SVS: [f64; 6] = [1.0, 2.0, 0.5, 1.0000000000000002, 0.1, 10.0];
+// includes pairs that differ by rounding noise only (|a-b| < f64::EPSILON but a != b)
+const SVS: [f64; 10] = [1.0, 2.0, 0.5, 1.0000000000000002, 0.1, 10.0, 0.3, 0.30000000000000004, 0.75, 0.7500000000000001];
 
 fn rand_time(r: &mut Rng) -> f64 {
     match r.below(10) {
@@ -330,7 +331,7 @@ fn rand_op(r: &mut Rng, kinds: u32) -> Op {
     match (k, look) {
         (0, false) => Op::AddT(t, *r.pick(&[500.0, 6.0, 1000.0, 333.3]), r.chance(1, 4), *r.pick(&[4, 3, 7])),
         (1, false) => Op::AddD(t, *r.pick(&SVS), !r.chance(1, 5)),
-        (2, false) => Op::AddE(t, r.chance(1, 2), *r.pick(&[1.0, 1.0, 2.0, 0.01, 1.0000000000000002])),
+        (2, false) => Op::AddE(t, r.chance(1, 2), *r.pick(&[1.0, 1.0, 2.0, 0.01, 1.0000000000000002, 0.3, 0.30000000000000004])),
         (3, false) => Op::AddS(t, r.below(4) as i32, *r.pick(&[100, 50, 0]), *r.pick(&[0, 1, 2])),
         (0, true) => Op::LookT(t),
         (1, true) => Op::LookD(t),
